@@ -279,6 +279,16 @@ impl<'tcx> Cx<'tcx> {
                 // a reference to a constant allocation; try to read a small scalar pointee
                 let (prov, off) = ptr.prov_and_relative_offset();
                 let aid = prov.alloc_id();
+                if let Some(mir::interpret::GlobalAlloc::Static(sdid)) = self.tcx.try_get_global_alloc(aid) {
+                    // the address of a `static`: an immutable one without interior mutability always holds its initialiser,
+                    // which is emitted in the "consts" section under the static's path
+                    let st = self.tcx.type_of(sdid).instantiate_identity().skip_norm_wip();
+                    let frozen = st.is_freeze(self.tcx, TypingEnv::fully_monomorphized());
+                    if !self.tcx.is_mutable_static(sdid) && frozen && off.bytes() == 0 {
+                        return J::O(vec![("static", s(self.path(sdid)))]);
+                    }
+                    return J::O(vec![("static_mut", s(self.path(sdid)))]);
+                }
                 if let ty::Ref(_, inner, _) = t.kind() {
                     if let Some(v) = self.read_alloc(aid, off.bytes() as usize, *inner) {
                         return J::O(vec![("ref_to", v)]);
@@ -312,7 +322,10 @@ impl<'tcx> Cx<'tcx> {
             mir::interpret::GlobalAlloc::Memory(a) => a,
             _ => return None,
         };
-        let alloc = alloc.inner();
+        self.read_allocation(alloc.inner(), off, t)
+    }
+
+    fn read_allocation(&self, alloc: &mir::interpret::Allocation, off: usize, t: Ty<'tcx>) -> Option<J> {
         let env = TypingEnv::fully_monomorphized();
         let layout = self.tcx.layout_of(env.as_query_input(t)).ok()?;
         let size = layout.size.bytes() as usize;
@@ -365,6 +378,14 @@ impl<'tcx> Cx<'tcx> {
                     v.push(self.read_bytes(&bytes[o..o + sz], ft)?);
                 }
                 Some(J::O(vec![("struct", s(self.path(def.did()))), ("fields", J::A(v))]))
+            }
+            ty::Adt(def, _) if def.is_enum() && def.variants().iter().all(|v| v.fields.is_empty()) && !bytes.is_empty() && bytes.len() <= 16 => {
+                // field-less enum: the stored tag is the discriminant (a table of states, a table of actions)
+                let mut v: u128 = 0;
+                for (i, b) in bytes.iter().enumerate() {
+                    v |= (*b as u128) << (8 * i);
+                }
+                Some(J::O(vec![("bits", J::S(format!("{}", v))), ("size", J::I(bytes.len() as i128))]))
             }
             _ => None,
         }
@@ -845,7 +866,16 @@ fn dump<'tcx>(tcx: TyCtxt<'tcx>) {
                 let t = tcx.type_of(did).instantiate_identity().skip_norm_wip();
                 o.push(("ty", cx.ty(t)));
                 o.push(("span", cx.span(tcx.def_span(did))));
-                if tcx.generics_of(did).is_empty() || !tcx.generics_of(did).requires_monomorphization(tcx) {
+                if matches!(kind, DefKind::Static { .. }) {
+                    // a static is not a constant for the evaluator: read its initialiser's allocation directly
+                    o.push(("static", J::B(true)));
+                    o.push(("mutable", J::B(tcx.is_mutable_static(did))));
+                    if let Ok(alloc) = tcx.eval_static_initializer(did) {
+                        if let Some(v) = cx.read_allocation(alloc.inner(), 0, t) {
+                            o.push(("val", v));
+                        }
+                    }
+                } else if tcx.generics_of(did).is_empty() || !tcx.generics_of(did).requires_monomorphization(tcx) {
                     if let Ok(cv) = tcx.const_eval_poly(did) {
                         o.push(("val", cx.const_value(cv, t)));
                     }
